@@ -37,4 +37,14 @@ PROPS = {
         "real": STORE_REAL, "stub": STORE_STUB,
         "assumptions": COMMON_ASSUME,
     },
+    "C14": {
+        "level": "exploration", "engine": "storesim",
+        "rule": "one run = three real stores (A and C fed identically, B differently) of the bridge or L1 info syncer: healthy blocks, then a block that contradicts the tree (deposit-count gap / shifted / repeated count; corrupted UpdateL1InfoTreeV2 root or leaf count), then any mix of {further blocks, query sweeps, reorgs above every stored block, reorgs dropping blocks}. While halted EVERY exported method of the facade (enumerated by reflection, 4 argument tuples each) must return the inconsistency error or provably not read the store (same answer on A and B, and same answer on C whose database handle is closed); ProcessBlock must fail with the inconsistency error and change nothing; an empty reorg must not clear the state, a reorg that deletes >=1 block row must. Non-trivial = the halted state was reached and methods were enumerated; distinct = distinct op-sequence fingerprints.",
+        "tiers": {"quick": {"runs": 320, "budget_s": 60, "selftest_seeds": 6, "selftest_procs": 6},
+                  "thorough": {"runs": 5000, "budget_s": 600, "selftest_seeds": 30, "selftest_procs": 30, "master_seeds": 3}},
+        "probes": ["halts", "methods_enumerated", "halted_calls_guarded", "halted_calls_storefree", "empty_reorgs_while_halted", "unhalting_reorgs", "blocks_refused_while_halted"],
+        "real": STORE_REAL, "stub": STORE_STUB + ["reorg detector behind GetLastReorgEvent is a stub (not a data query of the store)"],
+        "assumptions": COMMON_ASSUME + ["the halted flag is process memory: restarts while halted are not part of the property and are not generated",
+                                        "the driver-level clause (no block is handed over while halted) is observed at the processor boundary: ProcessBlock refuses and stores nothing"],
+    },
 }
